@@ -151,7 +151,7 @@ pub mod bits {
 
 pub mod generics {
     use super::*;
-    #[derive(TypeInfo)]
+    #[derive(TypeInfo, Clone)]
     pub struct G<T> {
         pub a: T,
         pub b: Vec<T>,
@@ -234,6 +234,33 @@ pub mod generics {
         /// first
         A(u8),
         B(PhantomData<T>),
+    }
+    /// Cow around a generic item and a VecDeque of the parameter
+    #[derive(TypeInfo)]
+    pub struct CowG<T: Clone + 'static> {
+        pub c: Cow<'static, G<T>>,
+        pub q: VecDeque<T>,
+        pub b: Box<G<u8>>,
+    }
+    #[derive(TypeInfo)]
+    pub struct UsesCowG {
+        pub a: CowG<u16>,
+        pub b: CowG<i64>,
+    }
+    /// a user type whose name merely ends in `Box`
+    #[derive(TypeInfo)]
+    pub struct MyBox<T>(pub T);
+    #[derive(TypeInfo)]
+    pub struct UsesMyBox<T> {
+        pub plain: MyBox<u8>,
+        pub generic: MyBox<T>,
+        pub real: Box<MyBox<T>>,
+        pub v: Vec<MyBox<u16>>,
+    }
+    #[derive(TypeInfo)]
+    pub struct UsesUsesMyBox {
+        pub a: UsesMyBox<u32>,
+        pub b: UsesMyBox<bool>,
     }
     #[derive(TypeInfo)]
     pub struct TwoUnused<A, B> {
@@ -582,6 +609,8 @@ pub fn all() -> Vec<(&'static str, PortableRegistry)> {
         ("boxed_param", reg_of::<generics::UsesBoxedParam>()),
         ("phantom", reg_of::<generics::UsesPh>()),
         ("two_unused", reg_of::<generics::UsesTwoUnused>()),
+        ("cow_generic", reg_of::<generics::UsesCowG>()),
+        ("mybox", reg_of::<generics::UsesUsesMyBox>()),
         ("calls", reg_of::<calls::Outer>()),
         ("reach", reg_of::<reach::Top>()),
         ("compact_as", reg_of::<compact_as::All>()),
